@@ -79,9 +79,12 @@ class C07(Prop):
                 if ["n", v.numerator, v.denominator] not in newl:
                     newl[k] = ["n", v.numerator, v.denominator]
         fill = rng.choice(["nan", "nan", "int", "float"])
+        frac_req = any(l[0] == "n" and l[2] != 1 for l in newl) and ax["kind"] == "i"
         c = {"op": "reindex", "array": arr, "axis": ["name", ax["name"]] if rng.random() < 0.5 else ["pos", d if rng.random() < 0.7 else d - rank],
              "labels": newl, "newkind": newkind, "as": rng.choice(["list", "ndarray", "Axis"]),
-             "fill": fill, "raise": rng.random() < 0.15, "method": rng.choice([None, None, None, "left", "right"]),
+             "fill": fill, "raise": rng.random() < 0.15,
+             # (a non-integral request on an integer axis: the neighbour search must not truncate it)
+             "method": rng.choice(["left", "right", None] if frac_req else [None, None, None, "left", "right"]),
              "_how": how}
         if c["as"] == "Axis":
             c["axis"] = ["name", ax["name"]]
